@@ -316,3 +316,19 @@ Proof.
   split; [discriminate|]. split; [vm_compute; auto|]. split; [vm_compute; auto|].
   vm_compute. intros [H|[]]. discriminate.
 Qed.
+
+(* ---- _find_lang: a class that declares no language (or is unknown) does not end the lookup ---------------------- *)
+Theorem find_lang_class_falls_through : forall name value rest styles,
+  str_eqb (lower name) (lit "lang") = false -> str_eqb (lower name) (lit "class") = true ->
+  (dict_get (lower value) styles = None \/ dict_get (lower value) styles = Some None) ->
+  find_lang ((name, value) :: rest) styles = find_lang rest styles.
+Proof. intros name value rest styles H1 H2 [H3|H3]; cbn [find_lang]; rewrite H1, H2, H3; reflexivity. Qed.
+
+Theorem find_lang_inline : forall name value rest styles,
+  str_eqb (lower name) (lit "lang") = true -> find_lang ((name, value) :: rest) styles = Some (firstn 2 value).
+Proof. intros name value rest styles H. cbn [find_lang]. rewrite H. reflexivity. Qed.
+
+Theorem find_lang_class_with_lang : forall name value l rest styles,
+  str_eqb (lower name) (lit "lang") = false -> str_eqb (lower name) (lit "class") = true ->
+  dict_get (lower value) styles = Some (Some l) -> find_lang ((name, value) :: rest) styles = Some l.
+Proof. intros name value l rest styles H1 H2 H3. cbn [find_lang]. rewrite H1, H2, H3. reflexivity. Qed.
